@@ -757,6 +757,9 @@ where
                 let parent_index = *self.store.heap.get_unchecked(parent_position.0);
                 *self.store.heap.get_unchecked_mut(position.0) = parent_index;
                 *self.store.qp.get_unchecked_mut(parent_index.0) = position;
+                // keep heap and qp consistent while comparing (user code)
+                *self.store.heap.get_unchecked_mut(parent_position.0) = map_position;
+                *self.store.qp.get_unchecked_mut(map_position.0) = parent_position;
             }
             position = parent_position;
         }
